@@ -167,17 +167,20 @@ def apalache_attempt(ntasks, timeout):
 # ------------------------------------------------------------------------------------------------ case generation
 
 def gen_cfg(mode, n, max_edges, fail_kinds, dangling, max_br=0):
-    return ('CONSTANTS\n  Mode = "%s"\n  N = %d\n  MaxEdges = %d\n  MaxBr = %d\n  FailKinds = {%s}\n  AllowDangling = %s\n'
+    """branch-free families use spec/TMGen.tla, families with branches spec/TMGenB.tla (same growth + statically selecting branches)"""
+    return ('CONSTANTS\n  Mode = "%s"\n  N = %d\n  MaxEdges = %d\n%s  FailKinds = {%s}\n  AllowDangling = %s\n'
             'SPECIFICATION Spec\nINVARIANT Emit\nCHECK_DEADLOCK FALSE\n' % (
-                mode, n, max_edges, max_br, ", ".join('"%s"' % k for k in fail_kinds), "TRUE" if dangling else "FALSE"))
+                mode, n, max_edges, "  MaxBr = %d\n" % max_br if max_br else "", ", ".join('"%s"' % k for k in fail_kinds),
+                "TRUE" if dangling else "FALSE"))
 
 
 def gen_graphs(families):
     """families: list of (name, mode, n, max_edges, fail_kinds, dangling[, max_br]).  Returns graphs (dicts with orders / probes) + stats."""
     def one(f):
         name, mode, n, me, fk, dang = f[:6]
-        return vlib.tlc("TMGen", "gen_%s.cfg" % name, files={"gen_%s.cfg" % name: gen_cfg(mode, n, me, fk, dang, f[6] if len(f) > 6 else 0)},
-                        workers=2, timeout=1200, heap="4g")
+        br = f[6] if len(f) > 6 else 0
+        return vlib.tlc("TMGenB" if br else "TMGen", "gen_%s.cfg" % name, files={"gen_%s.cfg" % name: gen_cfg(mode, n, me, fk, dang, br)},
+                        workers=2, timeout=900, heap="4g")
     with concurrent.futures.ThreadPoolExecutor(max_workers=JVMS) as ex:
         runs = list(ex.map(one, families))
     graphs, stats = [], []
@@ -556,8 +559,7 @@ def families_for(tier, rnd):
             ("wf3", "wf", 3, 9, ("err", "panic"), True, 0), ("pregel4", "pregel", 4, 14, ("err",), False, 0),
             ("dag4", "dag", 4, 14, ("err",), False, 0), ("wf4", "wf", 4, 14, ("panic",), True, 0),
             ("dag3b", "dag", 3, 9, ("err",), False, 1), ("wf3b", "wf", 3, 9, ("err",), True, 1),
-            ("dag3bb", "dag", 3, 6, (), False, 2), ("wf3bb", "wf", 3, 6, (), True, 2),
-            ("dag4b", "dag", 4, 6, (), False, 1), ("wf4b", "wf", 4, 6, (), True, 1)]
+            ]
 
 
 def c03(tier, repo=None):
@@ -578,12 +580,12 @@ def c03(tier, repo=None):
         # all 3-node graphs (and the layered 4-node pregel graphs) with all their orders; a seeded slice of the 4-node universe
         small = [g for g in graphs if g["fam"] in ("dag3", "pregel3", "wf3", "pregel4")]
         big = [g for g in graphs if g["fam"] in ("dag4", "wf4")]
-        br = [g for g in graphs if g["fam"] in ("dag3b", "wf3b") and g["branches"]]
+        br = [g for g in graphs if g["fam"] in ("dag3b", "wf3b") and g.get("branches")]
         rnd.shuffle(big)
         rnd.shuffle(br)
         graphs = small + big[:160] + br[:300]
         exhaustive = False
-    graphs = [g for g in graphs if g["branches"] or not g["fam"].endswith("b")]      # branch families also grow the branch-free graphs again
+    graphs = [g for g in graphs if g.get("branches") or not g["fam"].endswith("b")]      # branch families also grow the branch-free graphs again
     ocases = order_cases(graphs)
     scheds, sched_stats = gen_schedules(tier)
     hcases = hook_cases(tier, graphs, rnd) + sched_cases(tier, scheds, rnd)
